@@ -1,6 +1,8 @@
 //! S->I executor for ZoneFile.tla cases (C07).
 #[path = "../zf.rs"]
 mod zf;
+#[path = "../zfr.rs"]
+mod zfr;
 use serde_json::Value;
 use std::io::BufRead;
 use verif_harness::common::*;
@@ -71,11 +73,25 @@ fn main() {
             }
             _ => Some(1),
         };
-        let mut obs = zf::read_all(&text, &zf::ReadOpts {
+        // token-level cases: the data of one entry through the string-token scanner
+        if input.get("iter").is_some() {
+            let toks: Vec<String> = input["toks"].as_array().map(|a| a.iter()
+                .map(|t| String::from_utf8_lossy(&bytes_of(t)).into_owned()).collect()).unwrap_or_default();
+            return zfr::iter_scan(input["rtype"].as_u64().unwrap_or(0) as u16, &toks);
+        }
+        let opts = zf::ReadOpts {
             origin: origin.as_deref(),
             default_class: class,
-            allow_invalid: false,
-        });
+            allow_invalid: input.get("allow_invalid").and_then(|v| v.as_bool()).unwrap_or(false),
+        };
+        // the construction route of the reader (default: From<&[u8]>)
+        let route = input.get("route").and_then(|v| v.as_str()).unwrap_or("from_slice");
+        let mut offs = vec![];
+        let mut obs = zfr::read_all_route(route, &text, &opts, &mut offs);
+        // what zonetree::parsed makes of the same text
+        if let Some(b) = input.get("parsed").and_then(|v| v.as_str()) {
+            obs["parsed"] = zfr::parsed_obs(route, &text, &opts, b);
+        }
         // integer-boundary cases: TLC's integers end at 2^31 - 1, so the TTL is
         // compared as four big-endian octets
         if input.get("ttl_octets").is_some() {
